@@ -20,3 +20,5 @@ mod params;
 mod keygen;
 #[cfg(kani)]
 mod codec;
+#[cfg(kani)]
+mod probe;
